@@ -37,7 +37,8 @@ func Profile(prop string) GenOpts {
 	case "C07":
 		o.MaxDeps, o.Ns, o.POnce, o.PCall = 3, []int{1, 1, 2, 2, 3, 0}, 0.25, 0.3
 	case "C13":
-		o.PGuard, o.Guards, o.PForce, o.PYes = 0.35, []string{"platform", "platreq", "requires", "enum", "precond", "prompt", "uptodate", "internal"}, 0.15, 0.3
+		o.PForceAll = 0.1
+		o.PGuard, o.Guards, o.PForce, o.PYes = 0.35, []string{"platform", "platreq", "requires", "requires2", "enum", "precond", "prompt", "uptodate", "internal"}, 0.15, 0.3
 	case "C14":
 		o.PDefer, o.PDeferCall, o.PFail, o.PCall = 0.3, 0.1, 0.3, 0.25
 	}
